@@ -1,7 +1,8 @@
 """C18 — a model inferred from headers reads data like the explicit model it denotes.
 
-A  proof step: Rpft.Props.C18 (infer_render, infer_cells_independent, InFamily + negative
-   witnesses) re-checked by the kernel against tables regenerated from /repo.
+A  proof step: Rpft.Props.C18 (infer_render for all nested schemas, infer_order_insensitive for all
+   column orders, inferred_parses_like_explicit, infer_cells_independent, InFamily/InFamilyU +
+   negative witnesses) re-checked by the kernel against tables regenerated from /repo.
 B  tie: Lean `infer` vs the real `model_from_headers` (walk of `__fields__`: names, types,
    defaults) on rendered family schemas in several spellings and on a malformed-header stream;
    Lean `renderHeaders` vs the harness' own renderer.
@@ -18,10 +19,10 @@ import random
 from .. import core, par
 
 MANIFEST = dict(
-    text="Proof (partial): over a line-by-line Lean model of model_inference.py, for ALL inputs: header_roundtrip (one annotated header name:type=default — every name the syntax can carry, every basic/list/List[T] type with T nested to any depth, every default of the family — is read back as exactly that name, type and default), infer_render_flat_partial (every family schema written with one header per field, any number of fields, is inferred back exactly), infer_cells_independent; the full statement C18_full (records, indexed lists with per-index defaults, lists of records, any depth) is stated in Lean, kernel-checked on nested instances of depth 1-3 (nested_instances) and checked against the real code on thousands of generated nested schemas per run; one kernel-checked negative witness per clause of InFamily. Tie: Lean infer vs real model_from_headers (walk of __fields__: names, types, defaults) on rendered schemas in two spellings and on a malformed-header stream. Direct oracle: inferred model vs explicit pydantic twin on generated rows through the real RowParser/CellParser, plus the ContentIndexParser fallback end to end.",
+    text="Proof: over a line-by-line Lean model of model_inference.py, for ALL inputs (structural induction on the schema tree, no bound on depth or width): infer_render = C18_full (every schema of the family - basic fields with defaults, list/List[T], sub-records a.b, indexed lists a.1,a.2 with per-index defaults, lists of records, lists of lists, nested to any depth - rendered to its canonical header list is inferred back EXACTLY: names, order, types, defaults); infer_order_insensitive (for every such schema with its fields in ANY order (InFamilyU) and ANY permutation of its header list - interleaved fields, column-major lists of records, split sub-records/lists, list entries out of order, at any depth - inference succeeds and yields the schema up to the order of the fields of each record; TyEquiv = equal after sorting the fields of every record by name, proved an equivalence relation (tyEquiv_equivalence), sound (tyEquiv_of_perm) and not coarser than that (tyEquiv_model_names, tyEquiv_distinguishes)); corollaries for the column orders the harness generates (infer_column_moved, infer_adjacent_swap, infer_sorted_columns, infer_perm_agree, infer_perm_vs_canonical); inferred_parses_like_explicit (every row - any cells - parses under the inferred model to exactly the outcome under the explicit model, over the RowParser model of C07/C09); header_roundtrip; infer_cells_independent; non-vacuity examples and one kernel-checked negative witness per clause of InFamily/InFamilyU (needs_*), needs_up_to_field_order, needs_distinct_names, needs_same_columns; index_order_not_needed + row_parser_asserts_index_order (the increasing-index condition is RowParser.find_entry's, not model_from_headers'). Tie: Lean infer vs real model_from_headers (walk of __fields__: names, types, defaults) on rendered schemas in canonical, restyled and non-contiguous column orders and on a malformed-header stream. Direct oracle: inferred model vs explicit pydantic twin on generated rows through the real RowParser/CellParser (all three spellings/orders), plus the ContentIndexParser fallback end to end.",
     ref="§5 C18",
-    note="Partial: the nested case of infer_render is not proved in general (C18_full is visible in Props/C18.lean); row parsing (RowParser) is not modelled for C18, equality of row.dict() is established on the real code for generated rows. Trusts: Lean kernel (axioms audited each run), the differential harness and Driver JSON codec, pydantic v1 create_model/field defaults, CPython int()/str.split/strip as modelled (ASCII digits; digit strings with '_' or Unicode digits answered 'unsupported' and skipped by the tie). Former finding F-C18-a (a default containing '.') was fixed in /repo; dotted defaults are in the main stream.",
-    technique="Lean 4 proof (string/annotation lemmas, induction on the field list) + kernel-checked nested instances + model/code correspondence + differential oracle against an explicit pydantic twin",
+    note="The theorems cover the canonical spelling of the headers (what renderHeaders writes) in every column order; restyled spellings (blanks around : and =, explicit :str, explicit zero defaults, True/TRUE) are covered by the tie and oracle C only. inferred_parses_like_explicit is a congruence (same model => same parse) through rowSchema, the translation of an inferred model into the RowParser model's schema type (plain ParserModel: identity remaps, every field defaulted; float defaults as text): that translation is a Lean definition, not tied to the real code - equality of row.dict() on the real code is established by oracle C on generated rows. Not proved: for a NON-canonical column order the row outcome under the inferred model equals the explicit one up to field order (needs field-order invariance of RowParser on leaf-addressed columns); checked by oracle C on the interleaved orders. Trusts: Lean kernel (axioms audited each run), the differential harness and Driver JSON codec, pydantic v1 create_model/field defaults, CPython int()/str.split/strip as modelled (ASCII digits; digit strings with '_' or Unicode digits answered 'unsupported' and skipped by the tie). Fractional float defaults (x:float=1.5) are not representable in the Lean Val (integer-valued) and go through oracle C only. Former finding F-C18-a (a default containing '.') was fixed in /repo; dotted defaults are in the main stream (the family predicate stays conservative about them).",
+    technique="Lean 4 proof (string/annotation lemmas, header classification, induction on the size of the nested schema type, permutation invariance via grouping/lookup specifications and sorted normal forms) + model/code correspondence + differential oracle against an explicit pydantic twin",
 )
 
 # ------------------------------------------------------------------ schema helpers
@@ -568,6 +569,12 @@ def schema_worker(job):
             res["ties"].append({"what": "renderHeaders (Lean) differs from the harness renderer", "schema": fs, "lean": mr["headers"], "harness": headers})
         if ordered and not dotted and not mr["inFamily"]:
             res["infra"].append({"what": "generator produced a schema outside InFamily", "schema": fs})
+        if given is None and not dotted and not mr.get("no_lean_schema") and not mr.get("inFamilyU"):
+            res["infra"].append({"what": "generator produced a schema outside InFamilyU", "schema": fs})
+        if mr.get("inFamilyU"):
+            cnt("schema.InFamilyU")
+            if ils:
+                cnt("schema.InFamilyU_with_interleaved_order")
         if mr["inFamily"]:
             cnt("schema.InFamily")
             if not mr["roundtrip"]:
@@ -913,15 +920,16 @@ def run(ck: core.Check):
     ck.assumptions = [
         "pydantic v1: create_model keeps field order, defaults are returned by .dict() when a field is absent (exercised by oracle C)",
         "CPython int()/str.split/str.strip as modelled in Rpft/Infer.lean (ASCII digits and sign; '_' / Unicode digits answered 'unsupported' and skipped)",
-        "RowParser/CellParser are NOT modelled for C18: row.dict() equality is established on the real code for generated rows only",
+        "inferred_parses_like_explicit is stated over the RowParser model of C07/C09 through rowSchema (Lemmas/InferRow.lean), a Lean definition not tied "
+        "to the real code; row.dict() equality on the real code is established by oracle C for generated rows",
     ]
     ck.partial_gap = [
-        "infer_render is proved for flat schemas of any size (infer_render_flat_partial) and for single headers of any annotation type "
-        "(header_roundtrip); the nested case (C18_full: records, indexed lists, lists of records, any depth) is stated, kernel-checked on "
-        "nested_instances (depth 1-3) and covered by tie B + oracle C on generated schemas, but not proved for all schemas",
-        "inferred_parses_like_explicit (DESIGN §5) is not a Lean theorem here: it needs the RowParser model (M2, property C07/C09); "
-        "given infer_render it is a congruence (same schema ⇒ same parse), checked on the real code by oracle C",
-        "InFamily fixes the order 'simple fields first' (the order the code builds); schemas in another order are covered by the tie and by oracle C only",
+        "infer_render (exact, canonical order, InFamily) and infer_order_insensitive (any permutation of the columns, fields in any order, InFamilyU, "
+        "up to field order) are proved for ALL schemas of the family; they speak about the canonical spelling of each header - restyled spellings "
+        "(blanks, explicit :str, explicit zero defaults, bool spellings) are covered by tie B2 and oracle C only",
+        "rows under a non-canonical column order: that the inferred model parses them like the explicit one (up to field order) is not a Lean theorem "
+        "(needs field-order invariance of the RowParser model); checked on the real code by oracle C on the interleaved orders",
+        "fractional float defaults (x:float=1.5) and defaults containing '.' are outside InFamily/InFamilyU (conservative); covered by the tie / oracle C",
     ]
     if not core.DRIVER_BIN.exists():
         raise core.Infra("driver not built:\n" + ck.lean.log[-2000:])
@@ -957,6 +965,7 @@ def run(ck: core.Check):
 
     # self-check of the distribution
     need = ["schema.has_list_of_records", "schema.has_record", f"schema.depth={maxdepth}", "rows.omitted", "rows.blanks", "schema.InFamily",
+            "schema.InFamilyU", "schema.InFamilyU_with_interleaved_order",
             "schema.has_indexed_list_of_10+", "schema.has_dotted_default", "order.non_contiguous"]
     missing = [s for s in need if not ck.strata.get(s)]
     if missing:
